@@ -49,6 +49,8 @@ func main() {
 		cmdScen(os.Args[2:])
 	case "rt":
 		cmdRT(os.Args[2:])
+	case "gc":
+		cmdGC(os.Args[2:])
 	default:
 		fmt.Println("unknown command", os.Args[1])
 		os.Exit(2)
